@@ -70,7 +70,9 @@ def run_proc(e, proc, ra, adf):
 
 
 def concrete_case(m, tabs, p):
-    return {'n': p['n'], 'tabs': tables_from_model(m, [[zb(b) for b in t] for t in tabs]), 'proc': p['proc']}
+    c = {'n': p['n'], 'tabs': tables_from_model(m, [[zb(b) for b in t] for t in tabs]), 'proc': p['proc']}
+    if p.get('features'): c['features'] = p['features']
+    return c
 
 
 def sem_job(e, p):
@@ -216,7 +218,7 @@ def judge_native(out, case):
 
 def replay(ctx, v):
     case = v['case']
-    nat = ctx.native()
+    nat = ctx.native(tuple(f for f in case['features'] if f != 'HashSet')) if case.get('features') else ctx.native()
     proc = case['proc']
     if proc.endswith(':Rand'):
         # the model over-approximates StdRng (every draw arbitrary): search seeds for one that reproduces
@@ -236,6 +238,7 @@ def replay(ctx, v):
 def key(v):
     c = v['case']
     k = '%s:%s:n%d:%s' % (v['kind'], c['proc'], c['n'], json.dumps(c['tabs']))
+    if c.get('features'): k += ':' + '+'.join(c['features'])
     return k
 
 
